@@ -14,6 +14,11 @@ Correspondence part (this file):
     replaced by a step counter) against the PrimFloat model, bit-exact via float.hex();
   * Runge-Kutta: the real RungeKutta4/45.__call__ are executed on exact polynomial objects and compared
     with the model on a 7x7 grid of rational points (decides equality of the step polynomials);
+  * Runge-Kutta with a TIME-DEPENDENT Hamiltonian: a spy callable H(t) returns a fresh commuting indeterminate
+    per distinct evaluation time; the evaluation times must be the tableau nodes and the step polynomial in the
+    independent stage Hamiltonians must equal rk4_step_t / rk45_step_t (grid deciding polynomial equality);
+  * histories: AdiabaticEvolution (exp, rk4, Trotter) and StateEvolution objects executed 2-3 times with different
+    final times; schedule arguments t/T, interpolated Hamiltonians and evaluation times per run, exactly;
   * tolerance *tests* (labelled): Trotter error order, exp-solver final state, RK convergence order.
 """
 import os as _os
@@ -419,8 +424,11 @@ def replay_missing_step(t0, T, dt, m):
 
 
 # ------------------------------------------------------------------ Runge-Kutta: exact polynomials through the real code
+NV = 12     # variables: 0 dt, 1 H (constant case), 2 psi, 3 t0, 4.. one per distinct evaluation time of H(t)
+
+
 class P:
-    """exact polynomials in (dt, H, psi) with Gaussian-rational coefficients; floats must be integral"""
+    """exact polynomials in NV variables with Gaussian-rational coefficients; floats must be integral"""
     backend = None
 
     def __init__(self, d=None):
@@ -440,11 +448,11 @@ class P:
                     raise Inexact(f"non-integral float literal {x}")
                 x = int(x)
             return Fraction(x)
-        return P({(0, 0, 0): (fr(re_), fr(im_))})
+        return P({(0,) * NV: (fr(re_), fr(im_))})
 
     @staticmethod
     def var(i):
-        k = [0, 0, 0]
+        k = [0] * NV
         k[i] = 1
         return P({tuple(k): (Fraction(1), Fraction(0))})
 
@@ -480,16 +488,29 @@ class P:
     def __truediv__(self, o):
         o = P.const(o)
         (k, (a, b)), = o.d.items()
-        assert k == (0, 0, 0) and b == 0
-        return self * P({(0, 0, 0): (1 / a, Fraction(0))})
+        assert k == (0,) * NV and b == 0
+        return self * P({(0,) * NV: (1 / a, Fraction(0))})
 
     def __matmul__(self, o):
         return self * o
 
     def eval(self, dt, H, psi=1):
-        re_ = sum(a * dt ** k[0] * H ** k[1] * psi ** k[2] for k, (a, b) in self.d.items())
-        im_ = sum(b * dt ** k[0] * H ** k[1] * psi ** k[2] for k, (a, b) in self.d.items())
+        return self.evalv({0: dt, 1: H, 2: psi})
+
+    def evalv(self, vals):
+        """vals: {variable index: Fraction}; unlisted variables must not occur"""
+        re_ = im_ = Fraction(0)
+        for k, (a, b) in self.d.items():
+            m = Fraction(1)
+            for i, e in enumerate(k):
+                if e:
+                    m *= vals[i] ** e
+            re_ += a * m
+            im_ += b * m
         return re_, im_
+
+    def key(self):
+        return tuple(sorted(self.d.items()))
 
     def __eq__(self, o):
         return self.d == P.const(o).d
@@ -563,6 +584,122 @@ def run_rk(run, rng):
                 run.find(f"rk_model:{lab}", "Runge-Kutta step of the real code differs from the model at a rational point", {"point": lab}, concrete=False)
 
 
+# ---- time-dependent Hamiltonians: a spy callable H(t) returns a fresh commuting indeterminate per distinct time
+def real_rk_timedep(cls):
+    """returns (step polynomial, [evaluation times as polynomials in t0, dt], {time key: variable index})"""
+    from qibo import solvers
+    seen, times = {}, []
+
+    def spy(t):
+        tp = P.const(t)
+        times.append(tp)
+        k = tp.key()
+        if k not in seen:
+            seen[k] = 4 + len(seen)
+        return P.var(seen[k])
+    s = getattr(solvers, cls)(P.var(0), spy)        # __init__ evaluates H(0) twice (backend, t = 0)
+    del times[:]
+    seen.clear()
+    s.t = P.var(3)                                  # solver.t = start_time: evaluates H(t0)
+    out = s(P.var(2))
+    return out, times, seen
+
+
+def time_fraction(tp):
+    """t0 + f*dt  ->  f (a Fraction); None if the time is not of that shape"""
+    d = dict(tp.d)
+    k0 = tuple(1 if i == 3 else 0 for i in range(NV))
+    kd = tuple(1 if i == 0 else 0 for i in range(NV))
+    if d.pop(k0, None) != (Fraction(1), Fraction(0)):
+        return None
+    f = d.pop(kd, (Fraction(0), Fraction(0)))
+    if d or f[1] != 0:
+        return None
+    return f[0]
+
+
+def run_rk_timedep(run, rng):
+    hdr = HEADER.replace("Local Open Scope Z_scope.", "Local Open Scope Q_scope.")
+    items, meta = [], {}
+    dts = [Fraction(1, 2), Fraction(-1, 3), Fraction(2, 3), Fraction(3, 4), Fraction(1, 5), Fraction(5, 7), Fraction(-3, 2)]
+    for cls, model, nodes_name, nstage in (("RungeKutta4", "rk4_step_t", "rk4_nodes", 3), ("RungeKutta45", "rk45_step_t", "rk45_nodes", 6)):
+        try:
+            poly, times, seen = real_rk_timedep(cls)
+        except Inexact as e:
+            run.find(f"rk_trace_t:{cls}", f"cannot execute {cls}.__call__ exactly with a time-dependent Hamiltonian: {e}", {}, concrete=False)
+            continue
+        fr = [time_fraction(t) for t in times]
+        run.notes.setdefault("rk_evaluation_times", {})[cls] = [str(f) for f in fr]
+        # evaluation times: H(t0) from the setter, the stage times in the order of the code, H(t0 + dt) from `self.t += self.dt`
+        stage = fr[1:-1]
+        ok_shape = (None not in fr) and fr[0] == 0 and fr[-1] == 1 and len(stage) == nstage - 1
+        if not ok_shape:
+            run.find(f"rk_times:{cls}", f"{cls}.__call__ evaluates H(t) at unexpected times {[str(f) for f in fr]}", {"solver": cls, "times": [str(f) for f in fr]})
+            continue
+        lit = "[" + ";".join(f"({f.numerator},{f.denominator})%Z" for f in stage) + "]"
+        items.append((f"times:{cls}", f"list_eqb (fun a b : Z * Z => Z.eqb (fst a) (fst b) && Z.eqb (snd a) (snd b)) {nodes_name} {lit}"))
+        meta[f"times:{cls}"] = {"solver": cls, "stage_time_fractions": [str(f) for f in stage]}
+        # variable of stage i = the indeterminate returned at its evaluation time
+        key_of = lambda f: (P.var(3) + P.const(f) * P.var(0)).key()
+        var_stage = [seen[key_of(Fraction(0))]] + [seen[key_of(f)] for f in stage]
+        degs = {}
+        for k in poly.d:
+            for i, e in enumerate(k):
+                degs[i] = max(degs.get(i, 0), e)
+        run.notes.setdefault("rk_timedep_degrees", {})[cls] = {str(i): e for i, e in degs.items() if e}
+        hvals = [Fraction(1), Fraction(-2), Fraction(3, 2), Fraction(5), Fraction(-1, 3)]
+        import itertools as it
+        grids = [hvals[: degs.get(v, 0) + 1] for v in var_stage]
+        for hs in it.product(*grids):
+            for dt in dts[: degs.get(0, 0) + 1]:
+                vals = {0: dt, 2: Fraction(1), 3: Fraction(0)}
+                vals.update({v: h for v, h in zip(var_stage, hs)})
+                for v in seen.values():
+                    vals.setdefault(v, Fraction(0))
+                re_, im_ = poly.evalv(vals)
+                lab = f"t:{cls}:{','.join(map(str, hs))}:{dt}"
+                run.case(["rk-timedep", cls, [str(h) for h in hs], str(dt)])
+                args = " ".join(f"(gq_of {qlit(h)})" for h in hs)
+                items.append((lab, f"gq_eqb ({model} gq_ring {args} (gq_of {qlit(dt)}) (gq_of (1 # 1))) ({qlit(re_)}, {qlit(im_)})"))
+                meta[lab] = {"solver": cls, "stage_hamiltonians": [str(h) for h in hs], "dt": str(dt), "psi": "1", "real_result": [str(re_), str(im_)]}
+    run.sample({"kind": "RK with a time-dependent Hamiltonian: evaluation times (fractions of dt after t0)", **run.notes.get("rk_evaluation_times", {})})
+    bad = {}
+    for k in range(0, len(items), 500):
+        res, out = run.coq_bools(f"C16_rkt_{k // 500}.v", hdr, items[k:k + 500], timeout=900)
+        if res is None:
+            run.find(f"coq:C16_rkt_{k // 500}", "generated file does not compile", {"log": out[-1500:]}, concrete=False)
+            continue
+        for lab, _ in items[k:k + 500]:
+            if not res[lab]:
+                bad.setdefault(meta[lab]["solver"], []).append(lab)
+    for cls, labs in bad.items():
+        tl = [l for l in labs if l.startswith("times:")]
+        if tl:
+            run.find(f"rk_times:{cls}", f"{cls}.__call__ evaluates the stage Hamiltonians at other times than the tableau nodes", {"mechanism": "rk-timedep", **meta[tl[0]]})
+        pl = [l for l in labs if l.startswith("t:")]
+        if pl:
+            run.find(f"rk_stage:{cls}", f"{cls}.__call__ with a time-dependent Hamiltonian: one step with independent stage Hamiltonians differs from the model "
+                                        f"(a stage uses the Hamiltonian of another time) at {len(pl)} of the grid points",
+                     {"mechanism": "rk-timedep", **meta[pl[0]], **rk_timedep_convergence(cls)})
+
+
+def rk_timedep_convergence(cls):
+    """tolerance test on the real StateEvolution with H(t) = (1 + t) Z + X/2: global error ratio when dt is halved"""
+    from qibo import hamiltonians, models
+    import scipy.integrate
+    Z_, X_ = np.diag([1.0, -1.0]).astype(complex), np.array([[0, 1], [1, 0]], dtype=complex)
+    Hm = lambda t: (1 + t) * Z_ + 0.5 * X_
+    ham = lambda t: hamiltonians.Hamiltonian(1, Hm(t))
+    psi0 = np.array([1, 1], dtype=complex) / np.sqrt(2)
+    ref = scipy.integrate.solve_ivp(lambda t, y: -1j * Hm(t) @ y, (0, 1.0), psi0, rtol=1e-13, atol=1e-13).y[:, -1]
+    errs = []
+    for dt in (0.125, 0.0625, 0.03125):
+        out = models.StateEvolution(ham, dt=dt, solver={"RungeKutta4": "rk4", "RungeKutta45": "rk45"}[cls])(final_time=1.0, initial_state=psi0.copy())
+        errs.append(float(np.abs(out - ref).max()))
+    return {"timedep_global_errors_dt_0.125_0.0625_0.03125": errs, "ratios": [errs[0] / errs[1], errs[1] / errs[2]],
+            "ratio_expected_for_stated_order": 16 if cls == "RungeKutta4" else 32}
+
+
 def rk_convergence_test(cls):
     """tolerance test on the real StateEvolution: global error at T=1 when dt is halved"""
     from qibo import hamiltonians, models
@@ -575,6 +712,129 @@ def rk_convergence_test(cls):
         errs.append(float(np.abs(out - exact).max()))
     return {"global_errors_dt_0.125_0.0625_0.03125": errs, "ratios": [errs[0] / errs[1], errs[1] / errs[2]],
             "ratio_expected_for_stated_order": 16 if cls == "RungeKutta4" else 32}
+
+
+# ------------------------------------------------------------------ histories: one object, several executions
+def qq(x):
+    f = Fraction(x)          # exact value of the float
+    return f"({f.numerator} # {f.denominator})"
+
+
+def qlist(xs):
+    return "[" + ";".join(qq(x) for x in xs) + "]"
+
+
+def run_histories(run, rng):
+    """AdiabaticEvolution / StateEvolution objects executed 2-3 times with different final times (dyadic dt, T so that
+    the float arithmetic of t += dt and t / T is exact): the schedule arguments actually passed, the interpolated
+    Hamiltonians actually built and the evaluation times of H(t) are compared with the model exactly."""
+    from qibo import hamiltonians, models
+    from qibo.hamiltonians import adiabatic as AD
+    from qibo.symbols import X, Z
+    hdr = HEADER.replace("Local Open Scope Z_scope.", "Local Open Scope Q_scope.")
+    items, meta = [], {}
+    count = 6 if run.tier == "quick" else 40
+    for k in range(count):
+        kind = ["exp", "rk4", "trotter"][k % 3]
+        dt = rng.choice([0.25, 0.5, 0.125])
+        Ts = [dt * rng.choice([1, 2, 4, 8]) for _ in range(rng.choice([2, 3]))]      # T = 2^m dt: t / T is an exact float
+        if len(set(Ts)) == 1:
+            Ts[-1] = Ts[0] * 2
+        power = rng.choice([1, 2])
+        args, built = [], []
+
+        def make_sched(pw):
+            def sched(x):            # exactly one positional argument: a schedule s(t), not s(t, params)
+                args.append(x)
+                return x ** pw
+            return sched
+        sched = make_sched(power)
+        if kind == "trotter":
+            h0 = hamiltonians.SymbolicHamiltonian(X(0) + X(1))
+            h1 = hamiltonians.SymbolicHamiltonian(Z(0) * Z(1) + 2 * Z(0))
+            ev = models.AdiabaticEvolution(h0, h1, sched, dt=dt, solver="exp")
+        else:
+            h0 = hamiltonians.Hamiltonian(1, np.array([[0, 1], [1, 0]], dtype=complex))
+            h1 = hamiltonians.Hamiltonian(1, np.array([[1, 0], [0, -3]], dtype=complex))
+            ev = models.AdiabaticEvolution(h0, h1, sched, dt=dt, solver=kind)
+        orig_call = AD.BaseAdiabaticHamiltonian.__call__
+
+        def spy_call(self, t, _o=orig_call):
+            r = _o(self, t)
+            if hasattr(r, "matrix") and not isinstance(r, hamiltonians.SymbolicHamiltonian):
+                built.append((t, np.array(r.matrix)))
+            return r
+        AD.BaseAdiabaticHamiltonian.__call__ = spy_call
+        try:
+            runs_args, runs_built = [], []
+            for T in Ts:
+                del args[:], built[:]
+                ev(final_time=T)
+                runs_args.append(list(args))
+                runs_built.append(list(built))
+        finally:
+            AD.BaseAdiabaticHamiltonian.__call__ = orig_call
+        times_fn = {"exp": "exp_eval_times", "rk4": "rk4_eval_times", "trotter": "trotter_eval_times"}[kind]
+        runs_coq = "[" + ";".join(f"({qq(T)}, {times_fn} 0 {qq(T)} {qq(dt)})" for T in Ts) + "]"
+        obs = "[" + ";".join(qlist(a) for a in runs_args) + "]"
+        lab = f"hist{k}:{kind}"
+        run.case(["history", kind, dt, Ts, power], nontrivial=True)
+        if k < 3:
+            run.sample({"kind": f"AdiabaticEvolution({kind}) executed {len(Ts)} times on one object", "dt": dt, "final_times": Ts,
+                        "schedule_arguments_of_last_run": runs_args[-1][:8]})
+        items.append((lab, f"list_eqb qlist_eqb (ad_history None {runs_coq}) {obs}"))
+        meta[lab] = {"mechanism": "history", "kind": kind, "dt": dt, "final_times": Ts, "schedule_arguments_per_run": runs_args}
+        # the Hamiltonians actually built: (1 - s) h0 + s h1 with s = schedule(argument), exact dyadic arithmetic
+        if kind != "trotter":
+            for T, bl in zip(Ts, runs_built):
+                for (t, M) in bl:
+                    if t == 0:
+                        want = np.array(h0.matrix)
+                    else:
+                        sv = (Fraction(t) / Fraction(T)) ** power
+                        want = float(1 - sv) * np.array(h0.matrix) + float(sv) * np.array(h1.matrix)
+                    if not np.array_equal(M, want):
+                        run.find(f"adiabatic_total_time:{kind}:dt={dt}:T={Ts}", "the interpolated Hamiltonian of a later execution is not (1 - s(t/T)) h0 + s(t/T) h1 for the final time T of THAT execution",
+                                 {"mechanism": "history", "kind": kind, "dt": dt, "final_times": Ts, "run_T": T, "t": t, "built": M.tolist(), "expected": want.tolist()})
+                        break
+    # a re-used StateEvolution with a time-dependent Hamiltonian: evaluation times of H(t) per execution
+    for k in range(4 if run.tier == "quick" else 20):
+        solver = ["exp", "rk4"][k % 2]
+        dt = rng.choice([0.25, 0.5, 0.125])
+        seen = []
+
+        def ham(t):
+            seen.append(float(t))
+            return hamiltonians.Hamiltonian(1, np.diag([1.0 + float(t), -1.0]).astype(complex))
+        ev = models.StateEvolution(ham, dt=dt, solver=solver)
+        runs = []
+        spec = []
+        for _ in range(rng.choice([2, 3])):
+            t0 = dt * rng.choice([0, 0, 1, 2])
+            T = t0 + dt * rng.choice([1, 2, 3, 5])
+            del seen[:]
+            ev(final_time=T, start_time=t0, initial_state=np.array([1, 0], dtype=complex))
+            runs.append(list(seen))
+            spec.append((t0, T))
+        fn = {"exp": "exp_eval_times", "rk4": "rk4_eval_times"}[solver]
+        want = "[" + ";".join(f"{fn} {qq(t0)} {qq(T)} {qq(dt)}" for t0, T in spec) + "]"
+        obs = "[" + ";".join(qlist(r) for r in runs) + "]"
+        lab = f"reuse{k}:{solver}"
+        run.case(["reuse", solver, dt, spec], nontrivial=True)
+        items.append((lab, f"list_eqb qlist_eqb {want} {obs}"))
+        meta[lab] = {"mechanism": "history", "kind": "StateEvolution:" + solver, "dt": dt, "runs_t0_T": spec, "evaluation_times_per_run": runs}
+    res, out = run.coq_bools("C16_histories.v", hdr, items, timeout=900)
+    if res is None:
+        run.find("coq:C16_histories", "generated file does not compile", {"log": out[-1500:]}, concrete=False)
+        return
+    for lab, _ in items:
+        if not res[lab]:
+            m = meta[lab]
+            if lab.startswith("hist"):
+                run.find(f"adiabatic_total_time:{m['kind']}:dt={m['dt']}:T={m['final_times']}",
+                         "AdiabaticEvolution executed several times on one object: the schedule arguments t/T of a later run do not use that run's final time", m)
+            else:
+                run.find(f"evolution_reuse:{m['kind']}:dt={m['dt']}:{m['runs_t0_T']}", "a re-used StateEvolution evaluates H(t) at other times than a fresh one", m)
 
 
 # ------------------------------------------------------------------ exponential solver
@@ -623,6 +883,8 @@ def main(run):
     run_commuting(run, rng)
     run_nsteps(run, rng)
     run_rk(run, rng)
+    run_rk_timedep(run, rng)
+    run_histories(run, rng)
     run_exp_solver(run, rng)
     run.notes["historical"] = ("coq/theories/C16/History.v holds lemmas about the pre-repair code (nsteps truncation, RK stages "
                                "without -i); they are not statements about the current tree")
@@ -665,6 +927,12 @@ def replay(run, data):
         if "steps_expected" in rp and n != rp["steps_expected"]:
             run.find(key, data.get("what", "step count"), {**rp, "steps_now": n, **replay_missing_step(rp["t0"], rp["T"], rp["dt"], rp["steps_expected"])})
         return run.finish(level="proof", rule="replay of one recorded case")
+    if key.startswith("rk_stage") or key.startswith("rk_times"):
+        run_rk_timedep(run, random.Random(0))
+        return run.finish(level="proof", rule="replay of one recorded case")
+    if key.startswith("adiabatic_total_time") or key.startswith("evolution_reuse"):
+        run_histories(run, random.Random(run.seed))
+        return run.finish(level="proof", rule="replay of the history generator (same seed)")
     if key.startswith("rk_order"):
         run_rk(run, random.Random(0))
         return run.finish(level="proof", rule="replay of one recorded case")
